@@ -8,6 +8,7 @@ All three are theorems about the storage-manager state machine `Store.lean`
 import AkdModel.Store
 import AkdModel.PublishIO
 import AkdModel.Lemmas.StoreLemmas
+import AkdModel.Lemmas.StoreSelect
 namespace Akd.Store
 
 /-- keys are unique and records sit under their own key -/
@@ -33,8 +34,6 @@ def truth (s : State) (k : Key) : Option Rec :=
 
 /-! ## C16 -/
 
-/-- the invariant survives every operation: rejected writes, failing commits, evictions at any
-time cleaning is enabled, flushes, transactions -/
 
 /-- changing only the transaction fields keeps the invariant, provided `idle` is respected -/
 theorem Inv.frame {s : State} (h : Inv s) (l : Map) (a c : Bool) (hl : Map.WF l)
@@ -81,45 +80,47 @@ theorem Inv.cachePutAll {s : State} (h : Inv s) {rs : List Rec}
 /-- the write path of the repaired code: database first, then the cache -/
 theorem Inv.setPut {s : State} (h : Inv s) (r : Rec) :
     Inv (({ s with db := s.db.set r }).cachePut r) := by
-  unfold State.cachePut
-  split
-  · rename_i hc
-    have hc : s.hasCache = false := by simpa using hc
-    obtain ⟨h1, h2⟩ := h.noCache hc
-    refine { h with dbWF := Map.KU_set h.dbWF r, coherent := ?_, coherentAzks := ?_ }
-    · intro r' hr'; simp only [h1] at hr'; cases hr'
-    · intro r' hr'; simp only [h2] at hr'; cases hr'
-  · rename_i hc
-    have hc : s.hasCache = true := by simpa using hc
-    split
-    · rename_i hk
-      refine { h with dbWF := Map.KU_set h.dbWF r, azksKey := ?_, coherentAzks := ?_, noCache := ?_,
-                      coherent := ?_ }
-      · intro r' e; cases e; exact hk
-      · intro r' e; cases e; exact hk ▸ Map.get?_set_same s.db r'
-      · intro e; simp [hc] at e
+  obtain ⟨db, hc, cache, az, log, act, cc⟩ := s
+  obtain ⟨h1, h2, h3, h4, h5, h6, h7, h8, h9⟩ := h
+  dsimp only at *
+  cases hc
+  · obtain ⟨rfl, rfl⟩ := h8 rfl
+    simp only [State.cachePut, Bool.not_false, if_true]
+    exact ⟨Map.KU_set h1 r, h2, h3, h4, h5, (by intro r' hr'; cases hr'), (by intro r' e; cases e),
+      fun _ => ⟨rfl, rfl⟩, h9⟩
+  · by_cases hk : r.key = .azks
+    · simp only [State.cachePut, hk, Bool.not_true, Bool.false_eq_true, if_false, if_true]
+      refine ⟨Map.KU_set h1 r, h2, h3, h4, ?_, ?_, ?_, ?_, h9⟩
+      · intro r' e
+        have e' : r = r' := Option.some.inj e
+        subst e'; exact hk
       · intro r' hr'
-        show (s.db.set r).get? r'.key = some r'
-        rw [Map.get?_set_other _ _ (fun e => h.cacheNoAzks r' hr' (e ▸ hk))]
-        exact h.coherent _ hr'
-    · rename_i hk
-      refine { h with dbWF := Map.KU_set h.dbWF r, cacheWF := Map.KU_set h.cacheWF r,
-                      cacheNoAzks := ?_, coherent := ?_, coherentAzks := ?_, noCache := ?_ }
+        show (db.set r).get? r'.key = some r'
+        rw [Map.get?_set_other db r (k := r'.key) (fun e => h4 r' hr' (e.symm.trans hk))]
+        exact h6 _ hr'
+      · intro r' e
+        have e' : r = r' := Option.some.inj e
+        subst e'
+        show (db.set r).get? Key.azks = some r
+        rw [← hk]; exact Map.get?_set_same db r
+      · intro e; cases e
+    · simp only [State.cachePut, hk, Bool.not_true, Bool.false_eq_true, if_false]
+      refine ⟨Map.KU_set h1 r, Map.KU_set h2 r, h3, ?_, h5, ?_, ?_, ?_, h9⟩
       · intro r' hr'
         rcases Map.mem_set hr' with rfl | hr'
         · exact hk
-        · exact h.cacheNoAzks _ hr'
+        · exact h4 _ hr'
       · intro r' hr'
-        show (s.db.set r).get? r'.key = some r'
-        rcases (Map.mem_set_iff h.cacheWF).1 hr' with rfl | ⟨hm, hne⟩
+        show (db.set r).get? r'.key = some r'
+        rcases (Map.mem_set_iff h2).1 hr' with rfl | ⟨hm, hne⟩
         · exact Map.get?_set_same _ _
         · rw [Map.get?_set_other _ _ (Ne.symm hne)]
-          exact h.coherent _ hm
+          exact h6 _ hm
       · intro r' hr'
-        show (s.db.set r).get? Key.azks = some r'
+        show (db.set r).get? Key.azks = some r'
         rw [Map.get?_set_other _ _ hk]
-        exact h.coherentAzks _ hr'
-      · intro e; simp [hc] at e
+        exact h7 _ hr'
+      · intro e; cases e
 
 theorem Inv.setAllPutAll {s : State} (h : Inv s) (rs : List Rec) :
     Inv (({ s with db := s.db.setAll rs }).cachePutAll rs) := by
@@ -229,10 +230,7 @@ theorem inv_evict (s : State) (ks : List Key) (h : Inv s) : Inv (s.evict ks).1 :
       refine ⟨?_, h2⟩
       show ks.foldl Map.erase s.cache = []
       rw [h1]
-      clear h1
-      induction ks with
-      | nil => rfl
-      | cons k ks ih => exact ih
+      exact Map.foldl_erase_nil ks
   · exact h
 
 theorem inv_userState (s : State) (u : Nat) (fl : Flag) (f : Bool) (h : Inv s) :
@@ -267,13 +265,16 @@ theorem inv_userVersions (s : State) (us : List Nat) (fl : Flag) (f : Bool) (h :
 theorem inv_tombstone (s : State) (u e : Nat) (f : Bool) (h : Inv s) :
     Inv (s.tombstone fixed u e f).1 := by
   unfold State.tombstone
-  simp only []
-  split
-  · exact h
-  · split
+  cases f
+  · cases ha : s.active <;> simp only [Bool.false_eq_true, if_false, if_true] <;> split
     · exact h
     · exact inv_batchSet _ _ _ h
+    · exact h
+    · exact inv_batchSet _ _ _ h
+  · exact h
 
+/-- the invariant survives every operation: rejected writes, failing commits, evictions at any
+time cleaning is enabled, flushes, transactions -/
 theorem inv_step (s : State) (op : Op) (h : Inv s) : Inv (step fixed s op).1 := by
   cases op with
   | set r f => exact inv_set s r f h
@@ -306,25 +307,100 @@ theorem inv_init (hasCache : Bool) : Inv { hasCache := hasCache } :=
     noCache := fun _ => ⟨rfl, rfl⟩
     idle := fun _ => rfl }
 
+theorem Inv.cacheHit {s : State} (h : Inv s) {k : Key} {r : Rec} (hr : s.cacheHit k = some r) :
+    s.db.get? k = some r := by
+  unfold State.cacheHit at hr
+  split at hr
+  · cases hr
+  · split at hr
+    · rename_i hk; subst hk; exact h.coherentAzks r hr
+    · have := h.coherent r (Map.get?_some_mem hr)
+      rwa [Map.get?_some_key hr] at this
+
+/-- the cache-or-log lookup agrees with the truth whenever it answers -/
+theorem Inv.truth_eq {s : State} (h : Inv s) (k : Key) :
+    truth s k = (match s.fromCacheOnly k with | some r => some r | none => s.db.get? k) := by
+  unfold truth State.fromCacheOnly
+  cases hl : (if s.active = true then s.log.get? k else none) with
+  | some r => rfl
+  | none =>
+    cases hc : s.cacheHit k with
+    | none => rfl
+    | some r => exact h.cacheHit hc
+
+theorem get_obs (s : State) (k : Key) :
+    (s.get k false).2 = .one (match s.fromCacheOnly k with | some r => some r | none => s.db.get? k) := by
+  unfold State.get
+  cases hf : s.fromCacheOnly k with
+  | some r => rfl
+  | none =>
+    simp only [Bool.false_eq_true, if_false]
+    cases hd : s.db.get? k <;> rfl
+
 /-- every single read returns the truth -/
 theorem get_eq_truth (s : State) (k : Key) (h : Inv s) : (s.get k false).2 = .one (truth s k) := by
-  sorry
+  rw [get_obs, h.truth_eq]
 
 /-- every batched read returns the truth for each requested key that exists (as a set) -/
 theorem batchGet_eq_truth (s : State) (ks : List Key) (h : Inv s) :
     ∃ rs, (s.batchGet ks false).2 = .recs rs ∧ ∀ r, r ∈ rs ↔ ∃ k ∈ ks, truth s k = some r := by
-  sorry
+  have ht : ∀ k r, truth s k = some r ↔
+      (s.fromCacheOnly k = some r ∨ (s.fromCacheOnly k = none ∧ s.db.get? k = some r)) := by
+    intro k r
+    rw [h.truth_eq]
+    cases s.fromCacheOnly k <;> simp
+  unfold State.batchGet
+  split
+  · rename_i he
+    refine ⟨[], rfl, ?_⟩
+    have : ks = [] := by simpa using he
+    subst this; simp
+  · simp only [Bool.false_eq_true, if_false]
+    split
+    · rename_i hm
+      refine ⟨_, rfl, ?_⟩
+      have hm : ∀ k ∈ ks, s.fromCacheOnly k ≠ none := by
+        intro k hk hn
+        have : k ∈ (ks.filter (fun k => (s.fromCacheOnly k).isNone)).eraseDups := by
+          rw [List.mem_eraseDups]; exact List.mem_filter.2 ⟨hk, by simp [hn]⟩
+        rw [List.isEmpty_iff.1 hm] at this
+        cases this
+      intro r
+      simp only [List.mem_filterMap, ht]
+      constructor
+      · rintro ⟨k, hk, hr⟩; exact ⟨k, hk, Or.inl hr⟩
+      · rintro ⟨k, hk, hr | ⟨hn, _⟩⟩
+        · exact ⟨k, hk, hr⟩
+        · exact absurd hn (hm k hk)
+    · refine ⟨_, rfl, ?_⟩
+      intro r
+      simp only [List.mem_append, List.mem_filterMap, List.mem_eraseDups, List.mem_filter, ht,
+        Option.isNone_iff_eq_none]
+      constructor
+      · rintro (⟨k, hk, hr⟩ | ⟨k, ⟨hk, hn⟩, hr⟩)
+        · exact ⟨k, hk, Or.inl hr⟩
+        · exact ⟨k, hk, Or.inr ⟨hn, hr⟩⟩
+      · rintro ⟨k, hk, hr | ⟨hn, hr⟩⟩
+        · exact Or.inl ⟨k, hk, hr⟩
+        · exact Or.inr ⟨k, ⟨hk, hn⟩, hr⟩
 
 /-- after a flush the next read of the epoch record reflects storage -/
 theorem flush_then_epoch (s : State) (h : Inv s) :
     ((s.flush).1.get .azks false).2 = .one (truth s .azks) := by
-  sorry
+  rw [get_eq_truth _ _ (inv_flush s h)]
+  rfl
 
 /-- the pinned commit breaks the invariant on a rejected write (defect D3) -/
 theorem rejected_write_witness :
     ∃ s op, Inv s ∧ ¬ Inv (step legacy s op).1 ∧
       ((step legacy s op).1.get .azks false).2 ≠ .one (truth (step legacy s op).1 .azks) := by
-  sorry
+  refine ⟨{ db := [⟨.azks, 0, 1⟩] }, .set ⟨.azks, 0, 2⟩ true, ?_, ?_, ?_⟩
+  · constructor <;> simp [Map.WF, Map.get?]
+  · intro h
+    have := h.coherentAzks ⟨.azks, 0, 2⟩ rfl
+    revert this
+    decide
+  · decide
 
 /-! ## C15 -/
 
@@ -342,73 +418,283 @@ def committed (s : State) : State :=
            cache := (s.cachePutAll (State.commitOrder s.log)).cache,
            cacheAzks := (s.cachePutAll (State.commitOrder s.log)).cacheAzks }
 
+/-- `committed s` is the repaired write path applied to the cleared transaction -/
+theorem committed_eq (s : State) :
+    committed s =
+      ({ ({ s with log := [], active := false,
+                   canClean := if s.hasCache then true else s.canClean } : State) with
+          db := s.db.setAll (State.commitOrder s.log) }).cachePutAll (State.commitOrder s.log) := by
+  have := State.cachePutAll_frame s (s.db.setAll (State.commitOrder s.log)) [] false
+    (if s.hasCache then true else s.canClean) (State.commitOrder s.log)
+  rw [this]
+  apply State.ext' <;> simp [committed]
+
+theorem inv_committed {s : State} (h : Inv s) : Inv (committed s) := by
+  rw [committed_eq]
+  have h0 := h.frame [] false (if s.hasCache then true else s.canClean) List.Pairwise.nil (fun _ => rfl)
+  exact h0.setAllPutAll _
+
+@[simp] theorem committed_db (s : State) :
+    (committed s).db = s.db.setAll (State.commitOrder s.log) := rfl
+@[simp] theorem committed_active (s : State) : (committed s).active = false := rfl
+@[simp] theorem committed_log (s : State) : (committed s).log = [] := rfl
+
+/-- the database after the commit answers with the pending record if there is one -/
+theorem truth_committed {s : State} (h : Inv s) (ha : s.active = true) (k : Key) :
+    truth (committed s) k = truth s k := by
+  unfold truth
+  simp only [committed_active, Bool.false_eq_true, if_false, committed_db, ha, if_true]
+  rw [Map.get?_setAll _ (State.KU_commitOrder h.logWF), State.get?_commitOrder]
+  cases s.log.get? k <;> rfl
+
 /-- `commit` hands the database exactly the pending records, the epoch record last -/
 theorem commit_exact (s : State) (h : Inv s) (ha : s.active = true)
     (hz : ∃ r ∈ s.log, r.key = .azks) :
     (s.commit fixed false).1 = committed s ∧
     (State.commitOrder s.log).Perm s.log ∧ (∃ r, (State.commitOrder s.log).getLast? = some r ∧ r.key = .azks) := by
-  sorry
+  have _ := h
+  refine ⟨?_, State.commitOrder_perm _, State.commitOrder_getLast hz⟩
+  obtain ⟨r, hr, hk⟩ := State.commitOrder_getLast hz
+  have hne : (State.commitOrder s.log).isEmpty = false := by
+    cases hl : State.commitOrder s.log with
+    | nil => rw [hl] at hr; cases hr
+    | cons x xs => rfl
+  rw [committed_eq]
+  unfold State.commit
+  simp only [ha, hne, hr, hk, fixed, Bool.not_true, Bool.false_eq_true, if_false, ne_eq,
+    not_true_eq_false]
 
 theorem get_txn_eq_commit (s : State) (k : Key) (h : Inv s) (ha : s.active = true) :
     (s.get k false).2 = ((committed s).get k false).2 := by
-  sorry
+  rw [get_eq_truth _ _ h, get_eq_truth _ _ (inv_committed h), truth_committed h ha]
+
+/-- `DataWF`, read for one user -/
+theorem DataWF.verMono {s : State} (hd : DataWF s) (u : Nat) :
+    State.VerMono (State.userStates s.db u ++ State.userStates s.log u) := by
+  have sub : ∀ a, a ∈ State.userStates s.db u ++ State.userStates s.log u →
+      a ∈ s.db ++ s.log ∧ a.key = .vs u (State.epochOf a) := by
+    intro a ha
+    rcases List.mem_append.1 ha with ha | ha
+    · exact ⟨List.mem_append_left _ (State.userStates_sub ha), State.userKeyed_userStates _ _ a ha⟩
+    · exact ⟨List.mem_append_right _ (State.userStates_sub ha), State.userKeyed_userStates _ _ a ha⟩
+  intro a ha b hb
+  obtain ⟨ha', hka⟩ := sub a ha
+  obtain ⟨hb', hkb⟩ := sub b hb
+  have := hd a b ha' hb'
+  rw [hka, hkb] at this
+  exact (this rfl).2
+
+/-- one user's value states after the commit: the database's, overwritten by the pending ones -/
+theorem userStates_committed (s : State) (u : Nat) :
+    State.userStates (committed s).db u
+      = Map.setAll (State.userStates s.db u) (State.userStates s.log u) := by
+  rw [committed_db, State.userStates_setAll, State.userStates_commitOrder]
+
+theorem select_committed {s : State} (h : Inv s) (hd : DataWF s) (u : Nat) (f : Flag) :
+    State.select (State.userStates (committed s).db u) f
+      = State.pick f (State.select (State.userStates s.log u) f)
+          (State.select (State.userStates s.db u) f) := by
+  rw [userStates_committed]
+  exact State.select_setAll (Map.KU_filter h.dbWF _) (Map.KU_filter h.logWF _)
+    (State.userKeyed_userStates _ _) (State.userKeyed_userStates _ _) (hd.verMono u) f
 
 theorem userState_txn_eq_commit (s : State) (u : Nat) (f : Flag) (h : Inv s) (hd : DataWF s)
     (ha : s.active = true) :
     (s.userState u f false).2 = ((committed s).userState u f false).2 := by
-  sorry
+  rw [State.userState_obs_active s u f ha, State.userState_obs_idle _ u f (committed_active s),
+    select_committed h hd]
 
 /-- as sets; an absent user is the empty answer -/
 theorem userData_txn_eq_commit (s : State) (u : Nat) (h : Inv s) (ha : s.active = true) :
     ∃ a b, (s.userData u false).2 = .recs a ∧ ((committed s).userData u false).2 = .recs b ∧ a.Perm b := by
-  sorry
+  have _ := h
+  refine ⟨Map.setAll (State.userStates s.db u) (State.userStates s.log u),
+    State.userStates (committed s).db u, ?_, ?_, ?_⟩
+  · simp [State.userData, ha]
+  · simp [State.userData]
+  · rw [userStates_committed]
 
 theorem userVersions_txn_eq_commit (s : State) (us : List Nat) (f : Flag) (h : Inv s) (hd : DataWF s)
     (ha : s.active = true) :
     (s.userVersions fixed us f false).2 = ((committed s).userVersions fixed us f false).2 := by
-  sorry
+  rw [State.userVersions_obs_active s us f ha, State.userVersions_obs_idle _ us f (committed_active s)]
+  congr 2
+  funext u
+  rw [select_committed h hd, State.pickV_eq_pick (hd.verMono u)]
 
 theorem rollback_discards (s : State) (ha : s.active = true) :
     (s.rollback).1.db = s.db ∧ (s.rollback).1.log = [] ∧ (s.rollback).1.active = false := by
-  sorry
+  simp [State.rollback, ha]
 
 theorem begin_refused (s : State) (ha : s.active = true) :
     (s.begin).2 = .bool false ∧ (s.begin).1.log = s.log ∧ (s.begin).1.db = s.db := by
-  sorry
+  simp [State.begin, ha]
 
 /-- the pinned commit mixes epoch and version in the bulk-versions merge (defect D7) -/
 theorem versions_merge_witness :
     ∃ s us f, Inv s ∧ DataWF s ∧ s.active = true ∧
       (s.userVersions legacy us f false).2 ≠ ((committed s).userVersions legacy us f false).2 := by
-  sorry
+  refine ⟨{ db := [⟨.vs 1 5, 1, 10⟩], log := [⟨.vs 1 7, 2, 20⟩], active := true }, [1], .maxEpoch,
+    ?_, ?_, rfl, ?_⟩
+  · constructor <;> simp [Map.WF, Map.get?]
+  · intro a b ha hb
+    simp only [List.cons_append, List.nil_append, List.mem_cons, List.not_mem_nil, or_false] at ha hb
+    rcases ha with rfl | rfl <;> rcases hb with rfl | rfl <;> simp
+  · decide
 
 /-! ## C10 -/
 
 def Quiescent (s : State) : Prop := s.active = false ∧ s.log = []
 
-/-- a publish that does not succeed — because any database step failed, for ANY insertion program —
-leaves the database as it was, no transaction open, and the cache coherent -/
-theorem publish_fail_no_effect (s : State) (g : PublishProg) (k : Option Nat)
-    (h : Inv s) (hq : Quiescent s) (hs : (publishIO fixed s g k).2 ≠ .ok) :
-    (publishIO fixed s g k).1.db = s.db ∧ Quiescent (publishIO fixed s g k).1 ∧ Inv (publishIO fixed s g k).1 := by
-  sorry
+/-- the program does not write (the phase of `publish` before the transaction only reads) -/
+def ReadOnly (ops : List IOp) : Prop := ∀ o ∈ ops, ∀ r, o ≠ .set r
 
-/-- hence every later read returns what it returned before the failed call -/
+/-- a commit that reports an error has written nothing and has closed the transaction -/
+theorem commit_err {s : State} (h : Inv s) (f : Bool) (he : (s.commit fixed f).2 = .err) :
+    (s.commit fixed f).1.db = s.db ∧ Quiescent (s.commit fixed f).1 := by
+  revert he
+  unfold State.commit
+  split
+  · rename_i ha
+    intro _
+    have ha : s.active = false := by simpa using ha
+    exact ⟨rfl, ha, h.idle ha⟩
+  · simp only []
+    split
+    · intro he; cases he
+    · split
+      · split
+        · intro _; exact ⟨rfl, rfl, rfl⟩
+        · simp only [fixed, Bool.false_eq_true, if_false]
+          split
+          · intro _; exact ⟨rfl, rfl, rfl⟩
+          · intro he; cases he
+      · intro he; cases he
+
+theorem batchSet_active (p : Params) (s : State) (rs : List Rec) (f : Bool) (ha : s.active = true) :
+    (s.batchSet p rs f).1.db = s.db ∧ (s.batchSet p rs f).1.active = true := by
+  unfold State.batchSet
+  split
+  · exact ⟨rfl, ha⟩
+  · simp [ha]
+
+theorem rollback_idle {s : State} (ha : s.active = false) : (s.rollback).1 = s := by
+  simp [State.rollback, ha]
+
+theorem rollback_effect {s : State} (h : Inv s) :
+    (s.rollback).1.db = s.db ∧ Quiescent (s.rollback).1 := by
+  unfold State.rollback
+  split
+  · rename_i ha
+    have ha : s.active = false := by simpa using ha
+    exact ⟨rfl, ha, h.idle ha⟩
+  · exact ⟨rfl, rfl, rfl⟩
+
+/-- why `ReadOnly g.pre` is assumed below: `pre` runs outside the transaction, where the model's
+`IOp.set` writes straight to the database; a later failure then cannot undo it.  (The real `pre`
+phase, directory.rs:120-139, only reads.) -/
+theorem publish_fail_needs_readOnly :
+    ∃ s g k key, Inv s ∧ Quiescent s ∧ (publishIO fixed s g k).2 ≠ .ok ∧
+      (publishIO fixed s g k).1.db ≠ s.db ∧
+      ((publishIO fixed s g k).1.get key false).2 ≠ (s.get key false).2 := by
+  refine ⟨{}, ⟨[.set ⟨.node 0, 0, 1⟩], [.get (.node 1)], [], .azks⟩, some 1, .node 0,
+    inv_init true, ⟨rfl, rfl⟩, ?_, ?_, ?_⟩ <;> decide
+
+/-- a publish that does not succeed — because any database step failed, for ANY insertion program —
+leaves the database as it was, no transaction open, and the cache coherent.
+Hypothesis `ReadOnly g.pre` added (see `publish_fail_needs_readOnly`). -/
+theorem publish_fail_no_effect (s : State) (g : PublishProg) (k : Option Nat)
+    (h : Inv s) (hq : Quiescent s) (hro : ReadOnly g.pre) (hs : (publishIO fixed s g k).2 ≠ .ok) :
+    (publishIO fixed s g k).1.db = s.db ∧ Quiescent (publishIO fixed s g k).1 ∧ Inv (publishIO fixed s g k).1 := by
+  -- the reads before the transaction
+  have hpre := runIOps_preserves
+    (fun s' => s'.db = s.db ∧ s'.active = false ∧ s'.log = [] ∧ Inv s') fixed k g.pre
+    (by
+      intro s' o f ho ⟨h1, h2, h3, h4⟩
+      obtain ⟨e1, e2, e3⟩ := step_iop_read fixed s' o f (hro o ho)
+      exact ⟨e1.trans h1, e2.trans h2, e3.trans h3, inv_step s' _ h4⟩)
+    s 0 ⟨rfl, hq.1, hq.2, h⟩
+  -- the insertion, inside the transaction
+  have hins : ∀ s' n, (s'.db = s.db ∧ s'.active = true ∧ Inv s') →
+      (fun s' => s'.db = s.db ∧ s'.active = true ∧ Inv s') (runIOps fixed k s' n g.ins).1 :=
+    runIOps_preserves (fun s' => s'.db = s.db ∧ s'.active = true ∧ Inv s') fixed k g.ins
+      (by
+        intro s' o f _ ⟨h1, h2, h3⟩
+        obtain ⟨e1, e2⟩ := step_iop_active fixed s' o f h2
+        exact ⟨e1.trans h1, e2, inv_step s' _ h3⟩)
+  generalize hout : publishIO fixed s g k = out at hs ⊢
+  unfold publishIO at hout
+  generalize runIOps fixed k s 0 g.pre = r1 at hpre hout
+  obtain ⟨s1, n1, e1⟩ := r1
+  obtain ⟨p1, p2, p3, p4⟩ := hpre
+  simp only [] at p1 p2 p3 p4 hout
+  by_cases he1 : e1 = true
+  · rw [if_pos he1] at hout; subst hout; exact ⟨p1, ⟨p2, p3⟩, p4⟩
+  rw [if_neg he1] at hout
+  have hb : s1.begin.snd = Obs.bool true := by simp [State.begin, p2]
+  rw [if_neg (fun hn => hn hb)] at hout
+  have hI := hins s1.begin.fst n1 ⟨p1, rfl, inv_begin s1 p4⟩
+  generalize runIOps fixed k s1.begin.fst n1 g.ins = r2 at hI hout
+  obtain ⟨s2, n2, e2⟩ := r2
+  obtain ⟨q1, q2, q3⟩ := hI
+  simp only [] at q1 q2 q3 hout
+  by_cases he2 : e2 = true
+  · rw [if_pos he2] at hout; subst hout
+    exact ⟨(rollback_effect q3).1.trans q1, (rollback_effect q3).2, inv_rollback _ q3⟩
+  rw [if_neg he2] at hout
+  -- the final records go to the log
+  have hS := batchSet_active fixed s2 g.final false q2
+  have hSi := inv_batchSet s2 g.final false q3
+  generalize (State.batchSet fixed s2 g.final false).fst = s3 at hS hSi hout
+  -- the root read
+  have hG := step_iop_active fixed s3 (.get g.rootKey) (decide (k = some n2)) hS.2
+  have hGi := inv_get s3 g.rootKey (decide (k = some n2)) hSi
+  simp only [IOp.toOp, step] at hG
+  generalize s3.get g.rootKey (decide (k = some n2)) = r4 at hG hGi hout
+  obtain ⟨s4, o4⟩ := r4
+  simp only [] at hG hGi hout
+  by_cases he4 : o4 = Obs.err
+  · rw [if_pos he4] at hout; subst hout
+    exact ⟨(rollback_effect hGi).1.trans (hG.1.trans (hS.1.trans q1)), (rollback_effect hGi).2,
+      inv_rollback _ hGi⟩
+  rw [if_neg he4] at hout
+  -- the commit
+  have hCi := inv_commit s4 (decide (k = some (n2 + 1))) hGi
+  by_cases he5 : (State.commit fixed s4 (decide (k = some (n2 + 1)))).snd = Obs.err
+  · rw [if_pos he5] at hout; subst hout
+    obtain ⟨c1, c2⟩ := commit_err hGi _ he5
+    simp only []
+    rw [rollback_idle c2.1]
+    exact ⟨c1.trans (hG.1.trans (hS.1.trans q1)), c2, hCi⟩
+  · rw [if_neg he5] at hout; subst hout
+    exact absurd rfl hs
+
+/-- hence every later read returns what it returned before the failed call
+(`ReadOnly g.pre` as in `publish_fail_no_effect`) -/
 theorem reads_after_failure (s : State) (g : PublishProg) (k : Option Nat) (key : Key)
-    (h : Inv s) (hq : Quiescent s) (hs : (publishIO fixed s g k).2 ≠ .ok) :
+    (h : Inv s) (hq : Quiescent s) (hro : ReadOnly g.pre) (hs : (publishIO fixed s g k).2 ≠ .ok) :
     ((publishIO fixed s g k).1.get key false).2 = (s.get key false).2 := by
-  sorry
+  obtain ⟨h1, h2, h3⟩ := publish_fail_no_effect s g k h hq hro hs
+  rw [get_eq_truth _ _ h3, get_eq_truth _ _ h]
+  unfold truth
+  rw [h1, h2.1, hq.1]
+  simp only [Bool.false_eq_true, if_false]
 
 /-- with the pinned ordering (cache filled before the write; root read after the commit) a failed
 publish is visible (defects D3, D9) -/
 theorem commit_fail_pollutes_cache :
     ∃ s g k, Inv s ∧ Quiescent s ∧ (publishIOLegacy legacy s g k).2 = .err ∧
       ((publishIOLegacy legacy s g k).1.get .azks false).2 ≠ (s.get .azks false).2 := by
-  sorry
+  refine ⟨{ db := [⟨.azks, 0, 1⟩] }, ⟨[], [], [⟨.azks, 0, 2⟩], .azks⟩, some 0, ?_, ⟨rfl, rfl⟩, ?_, ?_⟩
+  · constructor <;> simp [Map.WF, Map.get?]
+  · decide
+  · decide
 
 theorem root_read_after_commit_witness :
     ∃ s g k, Inv s ∧ Quiescent s ∧ (publishIOLegacy fixed s g k).2 = .err ∧
       (publishIOLegacy fixed s g k).1.db ≠ s.db := by
-  sorry
+  refine ⟨{}, ⟨[], [], [⟨.azks, 0, 1⟩], .node 0⟩, some 1, inv_init true, ⟨rfl, rfl⟩, ?_, ?_⟩
+  · decide
+  · decide
 
 end Akd.Store
